@@ -1,0 +1,211 @@
+//go:build verif
+
+// Synchronous drivers of the two timer schedulers for the verification harness (build tag `verif`).
+// No goroutine, no ticker, no wall clock: the harness decides which pending request the "worker"
+// handles next and when virtual time advances. Every step calls the worker's own methods
+// (update, tick, addNode, delNode, delTimer); the only code repeated from the worker loops is the
+// body of the wheel's `case node := <-t.pendingAdd`, which the fact extractor compares textually
+// with the real `select` case on every run (mirror check).
+
+package sched
+
+import (
+	"sync"
+	"time"
+)
+
+// VerifRunnable is a runnable that only carries the identity the harness gave it.
+type VerifRunnable struct{ ID int }
+
+func (r *VerifRunnable) Run() error { return nil }
+
+// ---------------------------------------------------------------------------------------------
+// hashed hierarchical wheel
+
+type VerifWheel struct {
+	T   *HHWheelTimer
+	now int64
+}
+
+// NewVerifWheel builds a wheel exactly like NewHHWheelTimer, never started; `cbuf` is the capacity
+// of C (a burst must fit, nobody reads C while the synchronous worker step runs).
+func NewVerifWheel(cbuf int) *VerifWheel {
+	var t = new(HHWheelTimer).init(time.Millisecond, time.Millisecond)
+	t.C = make(chan Runnable, cbuf)
+	return &VerifWheel{T: t}
+}
+
+// SetPosition places the (empty) wheel at an arbitrary tick position.
+func (v *VerifWheel) SetPosition(tick uint32) { v.T.currTick = tick }
+
+// SetTime sets the virtual time of the worker (what worker() does on entry with the wall clock).
+func (v *VerifWheel) SetTime(now int64) {
+	v.now = now
+	v.T.lastTime = now
+	v.T.tickTime = now
+}
+
+func (v *VerifWheel) Position() uint32 { return v.T.currTick }
+func (v *VerifWheel) Now() int64       { return v.now }
+func (v *VerifWheel) PendingAdds() int { return len(v.T.pendingAdd) }
+func (v *VerifWheel) PendingDels() int { return len(v.T.pendingDel) }
+
+// StepAdd handles one pending start request like the worker's select case; false = none pending.
+func (v *VerifWheel) StepAdd() bool {
+	var t = v.T
+	select {
+	case node := <-t.pendingAdd:
+		// verif:mirror-begin wheel-add
+		node.deadline += t.tickTime + node.period
+		t.addNode(node)
+		// verif:mirror-end
+		return true
+	default:
+		return false
+	}
+}
+
+// StepDel handles one pending cancel request like the worker's select case; false = none pending.
+func (v *VerifWheel) StepDel() bool {
+	var t = v.T
+	select {
+	case node := <-t.pendingDel:
+		// verif:mirror-begin wheel-del
+		t.delTimer(node)
+		// verif:mirror-end
+		return true
+	default:
+		return false
+	}
+}
+
+// Advance lets n time units pass and runs the worker's ticker case once (one burst of n ticks).
+func (v *VerifWheel) Advance(n int64) {
+	v.now += n
+	v.T.update(v.now)
+}
+
+// Drain empties C without blocking.
+func (v *VerifWheel) Drain() []Runnable { return verifDrain(v.T.C) }
+
+// Linked counts the nodes linked into the wheel, per level (0 = near), by walking the buckets.
+func (v *VerifWheel) Linked() (ids [][]int) {
+	ids = make([][]int, WHEEL_LEVEL+1)
+	for i := range v.T.near {
+		for n := v.T.near[i].head; n != nil; n = n.next {
+			ids[0] = append(ids[0], n.id)
+		}
+	}
+	for l := range v.T.tvec {
+		for i := range v.T.tvec[l] {
+			for n := v.T.tvec[l][i].head; n != nil; n = n.next {
+				ids[l+1] = append(ids[l+1], n.id)
+			}
+		}
+	}
+	return ids
+}
+
+// ---------------------------------------------------------------------------------------------
+// binary heap
+
+type VerifQueue struct {
+	Q   *TimerQueue
+	now *int64
+}
+
+var (
+	verifClockMu sync.Mutex
+	verifClocks  = map[*TimerQueue]*int64{}
+)
+
+// verifNow is called first thing by TimerQueue.currentTimeUnit.
+func verifNow(s *TimerQueue) (int64, bool) {
+	verifClockMu.Lock()
+	var p = verifClocks[s]
+	verifClockMu.Unlock()
+	if p == nil {
+		return 0, false
+	}
+	return *p, true
+}
+
+// NewVerifQueue builds a queue exactly like NewTimerQueue, never started, on a virtual clock.
+func NewVerifQueue(cbuf int) *VerifQueue {
+	var q = NewTimerQueue(time.Millisecond, time.Millisecond).(*TimerQueue)
+	q.C = make(chan Runnable, cbuf)
+	var v = &VerifQueue{Q: q, now: new(int64)}
+	verifClockMu.Lock()
+	verifClocks[q] = v.now
+	verifClockMu.Unlock()
+	return v
+}
+
+// Release forgets the virtual clock of this queue.
+func (v *VerifQueue) Release() {
+	verifClockMu.Lock()
+	delete(verifClocks, v.Q)
+	verifClockMu.Unlock()
+}
+
+func (v *VerifQueue) SetTime(now int64) { *v.now = now }
+func (v *VerifQueue) Now() int64        { return *v.now }
+func (v *VerifQueue) PendingAdds() int  { return len(v.Q.pendingAdd) }
+func (v *VerifQueue) PendingDels() int  { return len(v.Q.pendingDel) }
+
+func (v *VerifQueue) StepAdd() bool {
+	var s = v.Q
+	select {
+	case node := <-s.pendingAdd:
+		// verif:mirror-begin heap-add
+		s.addNode(node)
+		// verif:mirror-end
+		return true
+	default:
+		return false
+	}
+}
+
+func (v *VerifQueue) StepDel() bool {
+	var s = v.Q
+	select {
+	case node := <-s.pendingDel:
+		// verif:mirror-begin heap-del
+		s.delNode(node)
+		// verif:mirror-end
+		return true
+	default:
+		return false
+	}
+}
+
+// Advance lets n time units pass (clients see the new time) without a tick of the worker.
+func (v *VerifQueue) Advance(n int64) { *v.now += n }
+
+// Tick runs the worker's ticker case once at the current virtual time.
+func (v *VerifQueue) Tick() {
+	v.Q.tick(time.Unix(0, *v.now*int64(v.Q.timeUnit)))
+}
+
+func (v *VerifQueue) Drain() []Runnable { return verifDrain(v.Q.C) }
+
+// HeapIDs returns the ids in the heap array, in array order.
+func (v *VerifQueue) HeapIDs() []int {
+	var ids = make([]int, 0, len(v.Q.timers))
+	for _, n := range v.Q.timers {
+		ids = append(ids, n.id)
+	}
+	return ids
+}
+
+func verifDrain(c chan Runnable) []Runnable {
+	var out []Runnable
+	for {
+		select {
+		case r := <-c:
+			out = append(out, r)
+		default:
+			return out
+		}
+	}
+}
